@@ -355,17 +355,24 @@ class FakeArgparse:
         self.ArgumentParser = ArgumentParser
 
 
-def run_main(peltool, world, ns, fj=None, in_bmc=False):
-    """run the real peltool.main() inside the world; returns exit status (None if main returned)"""
+def run_main(peltool, world, ns, fj=None, in_bmc=False, diag_modules=()):
+    """run the real peltool.main() inside the world; returns exit status (None if main returned).
+    diag_modules: further repo modules whose print / sys are routed into the world (section decoders
+    that print diagnostics)"""
+    import contextlib
     fj = fj or FakeJson()
     fsys = FakeSys(world, ["peltool.py"])
     fos = FakeOs(world)
     if in_bmc:
         world.dirs.add("/var/lib/phosphor-logging/extensions/pels/logs/")
     status = None
+    pr = make_print(world, fsys)
     try:
-        with patched(peltool, json=fj, prettyPrint=lambda t, *a, **k: t, print=make_print(world, fsys),
-                     open=make_open(world), os=fos, sys=fsys, argparse=FakeArgparse(ns)):
+        with contextlib.ExitStack() as st:
+            for m in diag_modules:
+                st.enter_context(patched(m, print=pr, sys=fsys))
+            st.enter_context(patched(peltool, json=fj, prettyPrint=lambda t, *a, **k: t, print=pr,
+                                     open=make_open(world), os=fos, sys=fsys, argparse=FakeArgparse(ns)))
             peltool.main()
     except SystemExit as e:
         status = e.code
